@@ -24,6 +24,8 @@ import (
 	oracletypes "github.com/tellor-io/layer/x/oracle/types"
 
 	"verif/harness/evmref"
+	"pgregory.net/rapid"
+
 	"verif/harness/pbt"
 )
 
@@ -43,6 +45,7 @@ type supplyMonitor struct {
 	feeDistrBefore math.Int
 	depositExpect  map[int]*big.Int // tx index -> expected minted loya if the claim is accepted
 	depositMinted  map[uint64]int64 // deposit id -> height of the accepted claim that minted it
+	dustBefore     *big.Int         // the dispute module's accumulated sub-unit dust (millionths of a loya) before the block
 	// history-wide
 	modulesOK  map[string]bool
 	mintBlocks int
@@ -100,6 +103,10 @@ func (m *supplyMonitor) Before(c *Chain, w *World, txs []*BuiltTx) *pbt.Violatio
 		m.mintPrev = minter.PreviousBlockTime
 	}
 	m.tbrBefore = moduleBal(c, "time_based_rewards")
+	m.dustBefore = new(big.Int)
+	if d, err := c.App.DisputeKeeper.Dust.Get(ctx); err == nil && !d.IsNil() {
+		m.dustBefore = d.BigInt()
+	}
 	m.feeDistrBefore = moduleBal(c, "fee_collector").Add(moduleBal(c, "distribution"))
 	// expected mint of every claim, decoded independently from the aggregate the claim names
 	m.depositExpect = map[int]*big.Int{}
@@ -180,6 +187,7 @@ func (m *supplyMonitor) After(c *Chain, w *World, br *BlockResult, outs []TxOutc
 	expected.Add(expected, mint)
 	pure := true
 	refunds := 0
+	refundBurn := new(big.Int)
 	undecided := false
 	for i, o := range outs {
 		if !o.OK() {
@@ -214,6 +222,32 @@ func (m *supplyMonitor) After(c *Chain, w *World, br *BlockResult, outs []TxOutc
 		case *disputetypes.MsgWithdrawFeeRefund:
 			refunds++
 			pure = false
+			if mv, bad := c13ParseMoves(o.Res.Events); !bad {
+				for _, x := range mv {
+					if x.to == "" && x.from == authtypes.NewModuleAddress(disputetypes.ModuleName).String() {
+						refundBurn.Add(refundBurn, x.amt)
+					}
+				}
+			}
+		}
+	}
+	// dust accounting of fee refunds ("sub-unit dust that is accumulated and burned"): the accumulator holds millionths
+	// of a loya; every refund adds less than one loya to it and whole loyas are burned out of it, so after a block it is
+	// below one loya and  burned*10^6 + dust_after - dust_before  is what the refunds of the block added: within
+	// [0, refunds*(10^6-1)]
+	dustAfter := new(big.Int)
+	if d, err := c.App.DisputeKeeper.Dust.Get(ctx); err == nil && !d.IsNil() {
+		dustAfter = d.BigInt()
+	}
+	if m.dustBefore != nil {
+		million := big.NewInt(1_000_000)
+		if dustAfter.Cmp(million) >= 0 || dustAfter.Sign() < 0 {
+			return pbt.Violf("C03/dust-accumulator-out-of-range", "block %d: the dispute module's dust accumulator holds %s millionths of a loya after the block (before: %s); whole loyas must have been burned out of it", br.Height, dustAfter, m.dustBefore)
+		}
+		added := new(big.Int).Sub(new(big.Int).Add(new(big.Int).Mul(refundBurn, million), dustAfter), m.dustBefore)
+		if added.Sign() < 0 || added.Cmp(new(big.Int).Mul(big.NewInt(int64(refunds)), big.NewInt(999_999))) > 0 {
+			return pbt.Violf("C03/refund-dust-burn-unbacked", "block %d: %d fee refunds burned %s loya of dust while the accumulator went from %s to %s millionths: the refunds would have added %s millionths (possible: 0..%d)",
+				br.Height, refunds, refundBurn, m.dustBefore, dustAfter, added, refunds*999_999)
 		}
 	}
 	// SDK validator slashing burns stake (not a layer event; standard x/slashing): read the burned amount from its event
@@ -386,4 +420,30 @@ func TestC03_Supply(t *testing.T) {
 	runHistoryProp(t, "C03", "TestC03_Supply",
 		"histories over all message types with minting started by a real governance proposal in 4 of 5 cases, tips/withdrawals/claims of boundary amounts, gaps 1 ms..30 d; shadow ledger of the documented supply events per block; non-trivial = accepted operations of >=4 modules and >=1 block that minted; distinct by SHA-256 of the history JSON",
 		supplyProfile(), func() Monitor { return &supplyMonitor{} })
+}
+
+// TestC03_SupplySettlement runs the supply ledger over the settlement scenarios of C13 (multi-payer disputes with
+// awkward amounts, everyone claims): the histories in which dispute burns and the refund dust accumulator move most.
+func TestC03_SupplySettlement(t *testing.T) {
+	pbt.Run(t, pbt.Prop[History]{Property: "C03", Name: "TestC03_SupplySettlement",
+		Rule: "settlement scenarios (generator of C13: one dispute per history with 1-5 payers in full / partial / repeated payments of awkward amounts, votes, optional second round, every payer and voter claims twice) under the supply ledger incl. the refund-dust accounting; non-trivial = >=2 accepted fee refunds; distinct by SHA-256 of the history JSON",
+		Gen: func(rt *rapid.T) History { return GenC13(rt, pbt.Thorough()) },
+		Check: func(h History, info *pbt.CaseInfo, st *pbt.Stats) error {
+			mon := &supplyMonitor{}
+			rs, _, v, err := RunHistory(h, mon)
+			if err != nil {
+				return err
+			}
+			info.Nontrivial = rs.ByKindOK[OpFeeRefund] >= 2
+			if rs.ByKindOK[OpFeeRefund] >= 3 {
+				info.Classes = append(info.Classes, "refunds>=3")
+			}
+			st.Count("blocks", int64(rs.Blocks))
+			st.Count("ok/refund", int64(rs.ByKindOK[OpFeeRefund]))
+			st.Count("ok/claim", int64(rs.ByKindOK[OpClaimReward]))
+			if v != nil {
+				return v
+			}
+			return nil
+		}})
 }
